@@ -9,22 +9,26 @@ CONSTANTS Mode,      \* "interleave" | "history" | "historyd" (histories over op
 VARIABLES hist
 vars == <<avars, hist>>
 
-Hist == Mode \in {"history", "historyd"}
+Hist == Mode \in {"history", "historyd", "historydc"}
 \* historyd: the data holds a value of one of two different struct types that are both called "row", or the same
 \* template is rendered with a receiver of another type than before (string, array, integer)
 OpsD == {Op("String", "ok"), Op("String", "bad"), Op("String", "row1"), Op("String", "row2"), Op("EvalString", "row1"), Op("EvalString", "row2"),
          Op("String", "polyS"), Op("String", "polyA"), Op("String", "polyI"), Op("Response", "polyA"), Op("Response", "polyS"),
-         Op("String", "ok2"), Op("String", "bare"), Op("String", "static"), Op("String", "nested-use"), Op("String", "dotS"), Op("String", "dotM"), Op("String", "lastA"), Op("String", "lastB"), Op("String", "lastC"), Op("String", "floatdec"), Op("String", "okbad"), Op("Response", "okbad"), Op("EvalString", "sameprintI"), Op("EvalString", "sameprintS")}      \* pages of one layout: with inserts, with other inserts, without any
-Ops15 == IF Mode = "historyd" THEN OpsD ELSE
+         Op("String", "ok2"), Op("String", "bare"), Op("String", "static"), Op("String", "nested-use"), Op("String", "dotS"), Op("String", "dotM"), Op("String", "lastA"), Op("String", "lastB"), Op("String", "lastC"), Op("String", "floatdec"), Op("String", "okbad"), Op("Response", "okbad"), Op("EvalString", "illegal"), Op("EvalString", "customfn"), Op("EvalString", "chanfn"), Op("String", "usesfn"), Op("EvalString", "sameprintI"), Op("EvalString", "sameprintS")}      \* pages of one layout: with inserts, with other inserts, without any
+\* (historydc: longer histories over a core of the historyd operations)
+OpsDCore == {Op("String", "ok"), Op("String", "bad"), Op("String", "row1"), Op("String", "polyS"), Op("String", "polyA"), Op("String", "lastA"), Op("String", "lastC"),
+             Op("String", "floatdec"), Op("String", "okbad"), Op("EvalString", "sameprintI"), Op("EvalString", "chanfn"), Op("String", "usesfn")}
+Ops15 == IF Mode = "historyd" THEN OpsD ELSE IF Mode = "historydc" THEN OpsDCore ELSE
          {Op("String", "ok"), Op("String", "bad"), Op("String", "missing"), Op("Response", "ok"), Op("Response", "bad"),
           Op("Response", "missing"), Op("EvalString", "ok"), Op("EvalString", "bad"), Op("EvalFile", "ok")}
-         \cup (IF Mode # "response" THEN {Op("String", "bad-in-loop"), Op("String", "ok2"), Op("String", "bare")} ELSE {})     \* fails inside a loop after some passes produced output
+         \cup (IF Mode # "response" THEN {Op("String", "bad-in-loop"), Op("String", "ok2"), Op("String", "bare"), Op("EvalString", "chanfn"), Op("EvalString", "customfn")} ELSE {})
+         \cup (IF Mode = "history" THEN {Op("EvalString", "illegal")} ELSE {})     \* fails inside a loop after some passes produced output
          \cup (IF Mode = "response" THEN {Op("Response", pg) : pg \in NotTemplates} ELSE {})
          \cup (IF Mode = "history" THEN {Op("String", "layouts/main"), Op("String", "/ok"), Op("Response", "layouts/../ok")} ELSE {})
-         \cup (IF Mode = "response" THEN {Op("Response", pg) : pg \in {"bad-in-component", "bad-in-layout", "bad-at-start", "bad-in-loop", "bad-in-slot", "bad-in-insert", "bad-in-array", "bad-in-args", "bad-in-object", "bad-in-for-cond", "bad-in-elseif", "bad-in-each-else", "bad-in-for-else", "bad-lt", "bad-in-assign"}} ELSE {})
+         \cup (IF Mode = "response" THEN {Op("Response", pg) : pg \in {"bad-in-component", "bad-in-layout", "bad-at-start", "bad-in-loop", "bad-in-slot", "bad-in-insert", "bad-in-array", "bad-in-args", "bad-in-object", "bad-in-for-cond", "bad-in-elseif", "bad-in-each-else", "bad-in-for-else", "bad-lt", "bad-in-assign", "bad-in-unused-arg", "bad-in-shadowed-arg"}} ELSE {})
          \cup (IF Mode = "history" THEN {Op("String", "setvar"), Op("String", "getvar"), Op("EvalString", "setvar"), Op("EvalString", "getvar"),
                                          Op("Response", "getvar")} ELSE {})
-Cfgs == IF Mode = "historyd" THEN {[dir |-> "t", ext |-> ".tw", errorPage |-> "", debug |-> FALSE]}
+Cfgs == IF Mode \in {"historyd", "historydc"} THEN {[dir |-> "t", ext |-> ".tw", errorPage |-> "", debug |-> FALSE]}
         ELSE {[dir |-> "t", ext |-> ".tw", errorPage |-> e, debug |-> d] : e \in {"", "err"}, d \in BOOLEAN}
 
 \* response mode: the application may change the debug mode with Configure AFTER the templates were loaded; what Response
